@@ -1,3 +1,4 @@
+import Ebu.Spec.Flow
 import Ebu.Props.C03
 import Ebu.Spec.Conc
 import Ebu.Proofs.Conc
@@ -39,5 +40,16 @@ happens inside ONE write-locked critical section, so a concurrent Unsubscribe ca
 theorem once_claim_and_retirement_atomic : Ebu.Locks.Discipline Ebu.Generated.accessFacts = true ∧
     Ebu.Locks.RegistryOpsAtomic Ebu.Generated.accessFacts = true :=
   ⟨Ebu.Props.C03.facts_discipline, Ebu.Props.C03.facts_registry_ops_atomic⟩
+
+/-! ### obligations on the control flow of the CURRENT source (`Ebu/Generated/Flow.lean`, regenerated from /repo on every run) -/
+
+/-- OBLIGATION: between the filter and the once claim the loop checks the context and skips the entry with `continue` (a rejected or cancelled delivery never reaches the compare-and-swap) -/
+theorem flow_filter_and_ctx_before_claim : Ebu.Flow.ctxCheckBeforeClaim = true := by decide +kernel
+
+/-- OBLIGATION: filter, then compare-and-swap, then the note for retirement, then dispatch; one compare-and-swap per entry -/
+theorem flow_claim_order : Ebu.Flow.dispatchOrder = true := by decide +kernel
+
+/-- OBLIGATION: a claimed once handler is retired by pointer identity after the loop -/
+theorem flow_retire_by_identity : Ebu.Flow.retireByIdentity = true := by decide +kernel
 
 end Ebu.Props.C04
